@@ -77,7 +77,7 @@ class Complete(Req):
         self.done_order = None
 
 
-def _harness(n, child, outcomes, vals, poss, first_by_return, second, spos, sval):
+def _harness(n, child, outcomes, vals, poss, first_by_return, second, spos, sval, pause_pos=None):
     for i in range(n):
         assume(child[i] or outcomes[i] != KILLED)   # only child processes can be killed; cancelled plain futures are outside the claim
     PLAN.clear()
@@ -87,7 +87,10 @@ def _harness(n, child, outcomes, vals, poss, first_by_return, second, spos, sval
     sec = Complete(spos, -1, OK, sval)
     if second:
         reqs.append(sec)
-    run = sched.Run(Barrier, reqs, auto_resume=False, auto_play=False)
+    if pause_pos is not None:
+        reqs.append(Req(GAP, pause_pos, sched.PAUSE, 0, 'p'))     # a pause racing with the completions; played again at idle
+    run = sched.Run(Barrier, reqs, auto_resume=False, auto_play=pause_pos is not None)
+    plain_apply = run.apply
     order = []        # actual completion order of the awaited futures (done-callbacks run FIFO)
     requested = []
     excs = {}
@@ -139,6 +142,10 @@ def _harness(n, child, outcomes, vals, poss, first_by_return, second, spos, sval
         return True
 
     def apply(r):
+        if not isinstance(r, Complete):
+            if r.act == sched.PAUSE and not run.proc.has_terminated():
+                NOTES.witness('pause_racing_with_completions')
+            return plain_apply(r)
         r.applied = True
         r.tick = run.tick
         r.pre = dict(terminated=run.proc.has_terminated())
@@ -229,6 +236,12 @@ def items3(npos: int, c0: bool, c1: bool, c2: bool, o0: int, o1: int, o2: int, v
     _harness(3, [c0, c1, c2], [pick(o0, 3), pick(o1, 3), pick(o2, 3)], [v0, v1, v2], [p0, p1, p2], fbr, False, 0, 0)
 
 
+def items2p(npos: int, o0: int, o1: int, v0: int, v1: int, p0: int, p1: int, pp: int):
+    """two awaited futures + a pause request at a symbolic position (the environment plays again when idle)"""
+    assume(0 <= p0 <= npos and 0 <= p1 <= npos and 0 <= pp <= npos)
+    _harness(2, [False, False], [pick(o0, 2), pick(o1, 2)], [v0, v1], [p0, p1], True, False, 0, 0, pause_pos=pp)
+
+
 def items1(npos: int, c0: bool, o0: int, v0: int, p0: int, fbr: bool, second: bool, sp: int, sv: int):
     assume(0 <= p0 <= npos and 0 <= sp <= npos)
     if not second:
@@ -236,13 +249,16 @@ def items1(npos: int, c0: bool, o0: int, v0: int, p0: int, fbr: bool, second: bo
     _harness(1, [c0], [pick(o0, 3)], [v0], [p0], fbr, second, sp, sv)
 
 
-HARNESSES = {'items1': items1, 'items2': items2, 'items3': items3}
+HARNESSES = {'items1': items1, 'items2': items2, 'items3': items3, 'items2p': items2p}
 
 
 def shards(tier):
     out = []
     b = 400 if tier == 'quick' else 2400
     np_ = 5 if tier == 'quick' else NPOS
+    for o0 in range(2):
+        for o1 in range(2):
+            out.append(dict(name=f'items2p/o0={o0},o1={o1}', harness='items2p', fixed=dict(npos=np_, o0=o0, o1=o1), budget_s=b))
     for o0 in range(3):
         out.append(dict(name=f'items1/o0={o0}', harness='items1', fixed=dict(npos=np_, o0=o0), budget_s=b))
         for o1 in range(3):
@@ -261,7 +277,7 @@ def shards(tier):
 BOUNDS = {
     'quick': dict(items='1 or 2 awaited items in every mix of plain future / child process and value / failing / killed; 3 items in two fixed mixes',
                   completion=f'each item completes at its own symbolic position 0..5 (thorough: 0..{NPOS}) (hence every order and placement between loop callbacks)',
-                  registration='first item by return value or by to_context() (symbolic), the others by to_context()', second_barrier='optional re-assignment of the first key by a later step'),
+                  registration='first item by return value or by to_context() (symbolic), the others by to_context()', second_barrier='optional re-assignment of the first key by a later step', pause='two plain futures (value/fails each) with one pause request at a symbolic position, played again at idle'),
     'thorough': dict(items='1..3 items, every mix', completion='as quick', registration='as quick', second_barrier='for 1 and 2 items'),
 }
 OUTSIDE = ['plain futures that are cancelled (only child processes are killed)', 'more than 3 awaited items', 'pause/play racing with the completions (C06)', 'awaitables that are coroutines or other awaitable kinds']
@@ -270,5 +286,5 @@ SOLVER_ROLE = 'selector role for completion placement/order; data role for the d
 EXPLANATION = 'entry of the next outline step: all awaited items done and their results in ctx; first failure wins and stops the chain'
 ASSUMPTIONS = ['a child that is asked to succeed before it is waiting is resumed at the first later tick at which it waits',
                'exception contexts reported to the loop by a second failing item are recorded but are not part of C10']
-REQUIRED_WITNESSES = ['all_succeeded', 'failed_item', 'two_failing_items', 'out_of_creation_order', 'child_process_awaited']
+REQUIRED_WITNESSES = ['pause_racing_with_completions', 'all_succeeded', 'failed_item', 'two_failing_items', 'out_of_creation_order', 'child_process_awaited']
 LEVEL_TEXT = 'bounded exhaustive symbolic exploration of number/kind/outcome of awaited items and of the position of every completion between loop callbacks, both registration ways, plus a second barrier'
